@@ -349,7 +349,7 @@ def c07(run, op, ctx, after):
     r = ctx.get("resp")
     coll = ctx["rel"]
     o = after.get(coll)
-    if o is None or not o.exists or r is None:
+    if o is None or not o.reliable or r is None:
         return
     if ti.get("never"):
         run.nontrivial["foreign"] = run.nontrivial.get("foreign", 0) + 1
@@ -435,7 +435,7 @@ def meta_bytes(run, coll, c):
 def c08(run, op, ctx, before, after, changed):
     for path, o in sorted(after.items()):
         c = run.model.colls.get(path)
-        if c is None or c.kind == "principal" or not o.exists:
+        if c is None or c.kind == "principal" or not o.reliable:
             continue
         t = o.tags
         vals = {"ctag_dav": t.get("ctag_dav"), "ctag_cs": t.get("ctag_cs"), "sync": t.get("sync"), "getetag": (t.get("getetag") or "").strip('"') or None}
@@ -466,8 +466,11 @@ def c08(run, op, ctx, before, after, changed):
         if mb is not None:
             key = (ms, hashlib.sha1(mb).hexdigest())
             st = run.tag_states.setdefault(path + "#bystate", {})
-            if key in st:
+            last = run.tag_states.setdefault("#last", {})
+            if key in st and last.get(path) is not None and last[path] != key:
                 run.nontrivial.setdefault("returns", set()).add((path, key))
+            last[path] = key
+            if key in st:
                 if st[key] != tag:
                     run.v("C08", "C08.same-contents-different-tag", "%s: same members and metadata, tags %s and %s" % (path, st[key], tag), backend=c.backend)
             st[key] = tag
@@ -508,6 +511,9 @@ def read_history(run, coll):
 
 
 def c09(run, op, ctx, before, after):
+    if ctx.get("deleted_coll"):
+        for k in [k for k in run.git_heads if k.startswith(ctx["deleted_coll"])]:
+            del run.git_heads[k]
     for path, c in sorted(run.model.colls.items()):
         if c.backend not in ("tree", "bare", "gitcfg"):
             continue
@@ -584,9 +590,9 @@ def real_git_checks(run, path, c):
             run.v("C09", "C09.fsck", "%s: git fsck rc=%s %s" % (path, p.returncode, bad[:3] or out[:200]), backend=c.backend)
         if c.backend in ("tree", "gitcfg"):
             run.count("git.status")
-            p = subprocess.run(["git", "-c", "safe.directory=*", "status", "--porcelain"], cwd=d, env=GIT_ENV, capture_output=True, timeout=60)
+            p = subprocess.run(["git", "-c", "safe.directory=*", "-c", "core.quotepath=false", "status", "--porcelain"], cwd=d, env=GIT_ENV, capture_output=True, timeout=60)
             lines = p.stdout.decode("utf-8", "replace").splitlines()
-            bad = [l for l in lines if not (l.startswith("?? ") and l.rstrip().endswith("/"))]
+            bad = [l for l in lines if not (l.startswith("?? ") and l.rstrip().rstrip('"').endswith("/"))]
             if p.returncode != 0 or bad:
                 run.v("C09", "C09.status-not-clean", "%s: git status: %s" % (path, bad[:4] or p.stderr[:200]), backend=c.backend)
     finally:
